@@ -28,9 +28,12 @@ Nested == {Anch(<<Term(Group(OneTerm(Term(Group(x), q1))), q2)>>) :
              q1 \in {Q(0, Unbounded, FALSE), Q(1, Unbounded, FALSE), Q(0, 1, FALSE)}, q2 \in {Q(0, Unbounded, FALSE), Q(1, Unbounded, FALSE), Q(2, 2, FALSE)}}
 AllTrees == OneTerms \cup TwoTerms \cup Groups \cup Special \cup Nested
 TreesWithoutNestedLoops == OneTerms \cup TwoTerms \cup Special
-\* quick tier: one term, special shapes, nested loops, and the groups under the plain loop quantifiers
+\* quick tier: one term, special shapes, nested loops, and a dozen groups under the plain loop quantifiers
+QuickAlts == {Alt(<<Cat(<<T(a)>>), Cat(<<>>)>>), Alt(<<Cat(<<T(a), T(b)>>), Cat(<<Term(a, Q(0, Unbounded, FALSE))>>)>>),
+              Alt(<<Cat(<<T(b), Term(End, NoQ)>>), Cat(<<T(a)>>)>>), Alt(<<Cat(<<T(a)>>), Cat(<<>>), Cat(<<T(b)>>)>>),
+              Alt(<<Cat(<<T(a), T(b)>>)>>), Alt(<<Cat(<<>>)>>)}
 QuickTrees == OneTerms \cup Special \cup Nested
-              \cup {Anch(<<Term(Group(x), q)>>) : x \in Alts, q \in {Q(0, Unbounded, FALSE), Q(1, 2, FALSE)}}
+              \cup {Anch(<<Term(Group(x), q)>>) : x \in QuickAlts, q \in {Q(0, Unbounded, FALSE), Q(1, 2, FALSE)}}
 ABC == {97, 98, 99}
 \* the lasso of the pinned thread list: ^(a*)*$
 JustNestedStar == {Anch(<<Term(Group(OneTerm(Term(Group(OneCat(<<Term(a, Q(0, Unbounded, FALSE))>>)), Q(0, Unbounded, FALSE)))), Q(0, Unbounded, FALSE))>>)}
